@@ -502,8 +502,26 @@ class SymClient(Client):
         self.log: List[Tuple[Event, SymState]] = []
 
     def emit(self, s: SymState, ev: Event) -> SymState:
-        if not any(e == ev and st.trail == s.trail for e, st in self.log):
-            self.log.append((ev, s))
+        # (the log may be appended to by sub-clients as well: the key set is rebuilt when it has fallen behind)
+        keys = self.__dict__.get('_log_keys')
+        if keys is None or self.__dict__.get('_log_len') != len(self.log):
+            keys = set()
+            for e, st in self.log:
+                try:
+                    keys.add((e, st.trail))
+                except TypeError:
+                    keys = None
+                    break
+            self._log_keys = keys
+        if keys is None:
+            if not any(e == ev and st.trail == s.trail for e, st in self.log):
+                self.log.append((ev, s))
+        else:
+            k = (ev, s.trail)
+            if k not in keys:
+                keys.add(k)
+                self.log.append((ev, s))
+        self._log_len = len(self.log)
         return s.add_event(ev)
 
     # ------------------------------------------------------------------ terms
